@@ -35,7 +35,7 @@ Step == l' = l + 1
 TInit == Init /\ l = 1 /\ pend = [s \in Sessions |-> {}] /\ TLCSet(1, 1)
 
 Skip == /\ l <= NEv
-        /\ Ev.ev \in {"start", "net.dial", "tcp.accept", "relay.req", "client.open", "harness.note"}
+        /\ Ev.ev \in {"start", "net.dial", "tcp.accept", "relay.req", "client.open", "dh.start", "harness.note"}
         /\ Step /\ UNCHANGED <<vars, pend>>
 
 NoHandlerInRet == \A s \in Sessions : hpc[s] \notin {"ret", "ret2"}
@@ -95,7 +95,8 @@ Silent ==
   /\ \/ (RelayOK /\ UNCHANGED pend)
      \/ (PCOk /\ UNCHANGED pend)
      \/ (\E s \in Sessions : HandlerStart(s) /\ UNCHANGED pend)
-     \/ (\E s \in Sessions : s \in closed /\ RelayEnd(s) /\ pend' = [pend EXCEPT ![s] = @ \cup {"end"}])
+     \/ (\E s \in Sessions : (s \in closed \/ (s = cur /\ mpc = "dctimeout"))   \* pc.Close() precedes the rs.exit hook
+                              /\ RelayEnd(s) /\ pend' = [pend EXCEPT ![s] = @ \cup {"end"}])
      \/ (\E s \in Sessions : HandlerReleaseDec(s) /\ pend' = [pend EXCEPT ![s] = @ \cup {"dec"}])
      \/ (\E s \in Sessions : HandlerReleaseTake(s) /\ pend' = [pend EXCEPT ![s] = @ \cup {"take"}])
 
